@@ -401,6 +401,6 @@ class World:
     try:
       return {'err': 'None', 'val': self.execute(c)}
     except BaseException as e:  # pylint: disable=broad-except
-      if isinstance(e, (KeyboardInterrupt, SystemExit)):
+      if isinstance(e, (KeyboardInterrupt, SystemExit)) or getattr(e, 'verif_passthrough', False):
         raise
       return {'err': err_class(e), 'val': 'None', 'exc': '%s: %s' % (type(e).__name__, str(e)[:200])}
